@@ -47,6 +47,7 @@ func seedRandom(t *Tape) {
 
 // RandDrawn returns how many bytes were drawn from the (simulated) system CSPRNG so far and the
 // draws themselves.
+//
 //go:norace
 func RandDrawn() (int64, [][]byte) {
 	r := CurrentRand
